@@ -44,8 +44,8 @@ PROPS = {
               "Gx.C07.bodySlots_congr", "Gx.C07.rlStore_nonstiff", "Gx.C07.rlStore_stiff", "Gx.C07.hybrid_aliases", "Gx.checkScheme_sound"] + COMMON,
              ["Gx.Pins.scheme_aliases"],
              ns.make_run(ns.c07_case, 30, 1200, ns.scheme_cfg), ns.c07_case),
-    "C08": P("GotranxProofs.Properties.C08 GotranxProofs.KahnComplete GotranxProofs.LoaderWF GotranxProofs.SeqCheckComplete",
-             ["Gx.C08.seqCheck_iff", "Gx.C08.seqCheck_complete", "Gx.coreLoad_wf", "Gx.loadStringP_wf", "Gx.compOf_ok", "Gx.allAtoms_names_nodup", "Gx.Kahn.staticOrder_complete", "Gx.Kahn.staticOrder_correct", "Gx.C08.seqCheck_pairwise", "Gx.C08.seqCheck_sound", "Gx.C08.sameDefinition_eq", "Gx.C08.sameDefinition_trans",
+    "C08": P("GotranxProofs.Properties.C08 GotranxProofs.KahnComplete GotranxProofs.LoaderWF GotranxProofs.SeqCheckComplete GotranxProofs.LoaderExt",
+             ["Gx.coreLoad_ext", "Gx.coreLoad_repeat", "Gx.C08.seqCheck_iff", "Gx.C08.seqCheck_complete", "Gx.coreLoad_wf", "Gx.loadStringP_wf", "Gx.compOf_ok", "Gx.allAtoms_names_nodup", "Gx.Kahn.staticOrder_complete", "Gx.Kahn.staticOrder_correct", "Gx.C08.seqCheck_pairwise", "Gx.C08.seqCheck_sound", "Gx.C08.sameDefinition_eq", "Gx.C08.sameDefinition_trans",
               "Gx.C08.sameDefinition_symm"],
              ["Gx.Pins.grammar_blocks"],
              ts.c08_run, ts.c08_case),
@@ -55,8 +55,8 @@ PROPS = {
               "Gx.C09.history_invariant", "Gx.C09.emitted_name_history_free", "Gx.sortNames_perm", "Gx.sortByName_perm", "Gx.sortByName_sorted"],
              ["Gx.Pins.scheme_aliases"],
              ts.c09_run, ts.c09_case),
-    "C10": P("GotranxProofs.Properties.C10 GotranxProofs.LoaderPerm GotranxProofs.LoaderAccept",
-             ["Gx.loadItemsP_perm", "Gx.coreLoad_accepts_perm", "Gx.coreLoad_perm", "Gx.C08.seqCheck_perm", "Gx.mem_comp_iff", "Gx.model_perm_invariant", "Gx.mem_allAtoms_iff", "Gx.buildComps_present", "Gx.C10.sortByName_canonical", "Gx.C10.model_of_perm", "Gx.C10.code_of_equal_models", "Gx.C09.sort_iter_invariant",
+    "C10": P("GotranxProofs.Properties.C10 GotranxProofs.LoaderPerm GotranxProofs.LoaderAccept GotranxProofs.LoaderExt",
+             ["Gx.coreLoad_ext", "Gx.loadItemsP_perm", "Gx.coreLoad_accepts_perm", "Gx.coreLoad_perm", "Gx.C08.seqCheck_perm", "Gx.mem_comp_iff", "Gx.model_perm_invariant", "Gx.mem_allAtoms_iff", "Gx.buildComps_present", "Gx.C10.sortByName_canonical", "Gx.C10.model_of_perm", "Gx.C10.code_of_equal_models", "Gx.C09.sort_iter_invariant",
               "Gx.C09.layout_iter_invariant", "Gx.sortByName_perm", "Gx.sortByName_sorted"],
              ["Gx.Pins.grammar_blocks"],
              ts.c10_run, ts.c10_case),
@@ -64,8 +64,8 @@ PROPS = {
              ["Gx.C14.evalVec_pointwise", "Gx.C14.scalarOnly_fails", "Gx.C14.scalarOnly_single", "Gx.C14.allSome_map", "Gx.C14.no_source_construct_scalarOnly"],
              [],
              ns.make_run(be.c14_case, 25, 1000, be.c14_cfg, extra=be.c14_extra), be.c14_case),
-    "C11": P("GotranxProofs.Properties.C11",
-             ["Gx.C11.writer_relations_in_grammar", "Gx.C11.writer_connectives_in_grammar", "Gx.C11.reload_preserves_values"],
+    "C11": P("GotranxProofs.Properties.C11 GotranxProofs.LoaderExt GotranxProofs.ParseRender",
+             ["Gx.coreLoad_idem", "Gx.ParseRender.parse_render", "Gx.ParseRender.text_denotes", "Gx.C11.writer_relations_in_grammar", "Gx.C11.writer_connectives_in_grammar", "Gx.C11.reload_preserves_values"],
              ["Gx.Pins.relop_table", "Gx.Pins.writer_overrides", "Gx.Pins.grammar_names", "Gx.Pins.grammar_keywords", "Gx.Pins.grammar_ladder"],
              ns.make_run(ss.c11_case, 30, 1000, ss.c11_cfg, extra=ss.c11_extra), ss.c11_case),
     "C13": P("GotranxProofs.Properties.C13 GotranxProofs.GenValidMissing GotranxProofs.SplitEndToEnd",
